@@ -5,6 +5,7 @@ import (
 	"fmt"
 	"math/rand/v2"
 	"sort"
+	"sync"
 
 	"golang.org/x/mod/sumdb/tlog"
 
@@ -80,7 +81,10 @@ type tileMut struct {
 }
 
 var tileMutators = []tileMut{
-	{"flip-bit", func(r *rand.Rand, d []byte, _ func() []byte) []byte { d[r.IntN(len(d))] ^= 1 << uint(r.IntN(8)); return d }},
+	{"flip-bit", func(r *rand.Rand, d []byte, _ func() []byte) []byte {
+		d[r.IntN(len(d))] ^= 1 << uint(r.IntN(8))
+		return d
+	}},
 	{"flip-first-slot", func(r *rand.Rand, d []byte, _ func() []byte) []byte { d[r.IntN(32)] ^= 0x40; return d }},
 	{"flip-last-slot", func(r *rand.Rand, d []byte, _ func() []byte) []byte { d[len(d)-1-r.IntN(32)] ^= 0x02; return d }},
 	{"truncate-1", func(r *rand.Rand, d []byte, _ func() []byte) []byte { return d[:len(d)-1] }},
@@ -476,6 +480,86 @@ func runC10(c *mon.Ctx) {
 		})
 	}
 	_ = sort.Ints
+	c10Concurrent(c, ref, maxN)
+}
+
+// c10Concurrent: honest reads through tiles from eight goroutines at once, each with its own reader and
+// tile source over the same reference log, at several heights side by side. Every read must succeed and
+// return the true hashes, and only true tiles may be saved (package-level scratch state in the tile code
+// would show here, and nowhere in the single-goroutine families).
+func c10Concurrent(c *mon.Ctx, ref *refmerkle.Log, maxN int) {
+	rounds := c.Share(c.Scale(40, 400))
+	for k := 0; k < rounds; k++ {
+		id := fmt.Sprintf("conc:%d", k)
+		if !c.Want(id) {
+			continue
+		}
+		c.WAL(id, nil)
+		rr := c.SubRng(id)
+		n := maxN - rr.IntN(maxN/2)
+		stored := ref.StoredAll(n)
+		tree := tlog.Tree{N: int64(n), Hash: tlog.Hash(ref.Root(n))}
+		const G = 8
+		type job struct {
+			h   int
+			idx [][]int64
+		}
+		jobs := make([]job, G)
+		for g := range jobs {
+			jobs[g].h = []int{1, 2, 3, 5, 8}[rr.IntN(5)]
+			for q := 0; q < 6; q++ {
+				var set []int64
+				for j, m := 0, 1+rr.IntN(6); j < m; j++ {
+					if rr.IntN(2) == 0 {
+						set = append(set, tlog.StoredHashIndex(0, int64(rr.IntN(n))))
+					} else {
+						set = append(set, int64(rr.IntN(len(stored))))
+					}
+				}
+				jobs[g].idx = append(jobs[g].idx, set)
+			}
+		}
+		var wg sync.WaitGroup
+		bad := make([]string, G)
+		for g := 0; g < G; g++ {
+			wg.Add(1)
+			go func(g int) {
+				defer wg.Done()
+				defer func() {
+					if e := recover(); e != nil {
+						bad[g] = fmt.Sprintf("panic: %v", e)
+					}
+				}()
+				srv := &tileSrv{h: jobs[g].h, n: n, ref: ref}
+				hr := tlog.TileHashReader(tree, srv)
+				for _, set := range jobs[g].idx {
+					got, err := hr.ReadHashes(set)
+					if err != nil {
+						bad[g] = fmt.Sprintf("height %d indexes %v: %v", jobs[g].h, set, err)
+						return
+					}
+					for i, x := range set {
+						if i >= len(got) || got[i] != tlog.Hash(stored[x]) {
+							bad[g] = fmt.Sprintf("height %d index %d: wrong hash returned", jobs[g].h, x)
+							return
+						}
+					}
+				}
+				if len(srv.savedBad) > 0 {
+					bad[g] = fmt.Sprintf("height %d: untrue tiles saved: %v", jobs[g].h, srv.savedBad)
+				}
+			}(g)
+		}
+		wg.Wait()
+		c.Eval(G * 6)
+		for g := range bad {
+			if bad[g] != "" {
+				c.Violation("concurrent-honest-read-failed", id, map[string]any{"n": n, "goroutine": g, "what": bad[g]})
+				break
+			}
+		}
+		c.Class("concurrent:8-readers:honest-reads-ok")
+	}
 }
 
 func gen4Path(r *rand.Rand, p string) string {
